@@ -427,17 +427,17 @@ OPTIONS = {
     "xlabel": (["-xlabel", "Xlab"], ["std", "loc", "pithist", "igncontrib", "against"], p_xlabel, None),
     "ylabel": (["-ylabel", "Ylab"], ["std", "loc", "pithist", "igncontrib", "against"], p_ylabel, None),
     "clabel": (["-clabel", "Clab"], ["map"], p_clabel, None),
-    "xlim": (["-xlim", "1,40"], ["std", "igncontrib"], p_xlim, "x"),
-    "ylim": (["-ylim", "0.5,30"], ["std", "loc", "pithist"], p_ylim, "y"),
+    "xlim": (["-xlim", "1,40"], ["std", "igncontrib"], p_xlim, "xl"),
+    "ylim": (["-ylim", "0.5,30"], ["std", "loc", "pithist"], p_ylim, "yl"),
     "clim": (["-clim", "1,7"], ["map"], p_clim, None),
-    "xticks": (["-xticks", "0,12,24"], ["std"], p_xticks, "x"),
-    "xticklabels": (["-xticks", "0,12,24", "-xticklabels", "a,b,c"], ["std"], p_xticklabels, "x"),
-    "yticks": (["-yticks", "0,5,10"], ["std", "loc"], p_yticks, "y"),
-    "yticklabels": (["-yticks", "0,5,10", "-yticklabels", "lo,mid,hi"], ["std", "loc"], p_yticklabels, "y"),
+    "xticks": (["-xticks", "0,12,24"], ["std"], p_xticks, "xt"),
+    "xticklabels": (["-xticks", "0,12,24", "-xticklabels", "a,b,c"], ["std"], p_xticklabels, "xt"),
+    "yticks": (["-yticks", "0,5,10"], ["std", "loc"], p_yticks, "yt"),
+    "yticklabels": (["-yticks", "0,5,10", "-yticklabels", "lo,mid,hi"], ["std", "loc"], p_yticklabels, "yt"),
     "xrot": (["-xrot", "35"], ["std", "loc", "pithist", "igncontrib"], p_xrot, None),
     "yrot": (["-yrot", "25"], ["std", "loc", "pithist", "igncontrib"], p_yrot, None),
-    "xlog": (["-xlog"], ["std"], p_xlog, "x"),
-    "ylog": (["-ylog"], ["std", "loc"], p_ylog, "y"),
+    "xlog": (["-xlog"], ["std"], p_xlog, "xlog"),
+    "ylog": (["-ylog"], ["std", "loc"], p_ylog, "ylog"),
     "leg": (["-leg", "LEGNAMES"], ["std", "loc", "igncontrib"], p_leg, None),
     "legfs": (["-legfs", "7"], ["std", "loc", "igncontrib"], p_legfs, "legfs"),
     "legfs0": (["-legfs", "0"], ["std", "loc", "igncontrib"], p_legfs0, "legfs"),
@@ -455,7 +455,7 @@ OPTIONS = {
     "gs": (["-gs", ":"], ["std", "loc", "pithist", "igncontrib", "against"], p_gs, "grid2"),
     "gw": (["-gw", "3"], ["std", "loc", "pithist", "igncontrib", "against"], p_gw, "grid3"),
     "nogrid": (["-nogrid"], ["std", "loc", "pithist", "igncontrib", "against"], p_nogrid, "nogrid"),
-    "sp": (["-sp"], ["std"], p_sp, "y"),
+    "sp": (["-sp"], ["std"], p_sp, "sp"),
     "aspect": (["-aspect", "2"], ["std", "loc", "pithist"], p_aspect, None),
     "fs": (["-fs", "10,4"], ["std", "loc", "map", "pithist", "igncontrib", "against"], p_fs, None),
     "dpi": (["-dpi", "50"], ["std", "loc", "map", "pithist", "igncontrib", "against"], p_dpi, None),
@@ -474,7 +474,8 @@ OPTIONS = {
 }
 EXCLUSIVE = [("nogrid", "gc"), ("nogrid", "gs"), ("nogrid", "gw"), ("nomargin", "left"), ("nomargin", "right"), ("nomargin", "top"),
              ("nomargin", "bottom"), ("nomargin", "left0"), ("nomargin", "bottom0"), ("legfs0", "leg"), ("legfs0", "legloc"), ("legfs0", "legfs"), ("title", "titlefs"),
-             ("aspect", "ylim"), ("aspect", "xlim")]
+             ("aspect", "ylim"), ("aspect", "xlim"), ("xlog", "xticks"), ("xlog", "xticklabels"), ("ylog", "yticks"),
+             ("ylog", "yticklabels"), ("ylog", "sp"), ("xlog", "xlim"), ("ylog", "ylim")]
 
 
 def compatible(names):
@@ -626,7 +627,8 @@ def run_subsets(desc, ctx):
 
 FAMILIES = [["gc", "gs", "gw"], ["left", "right", "top", "bottom", "fs", "dpi"], ["left0", "right", "bottom0", "top", "fs", "dpi"], ["xrot", "yrot", "tickfs"],
             ["title", "xlabel", "ylabel", "labfs"], ["titlefs", "xlabel", "labfs"], ["leg", "legfs", "legloc"],
-            ["lc", "ls", "lw", "ma", "ms"], ["xlim", "ylim"], ["xlog", "ylog"], ["xticks", "yticks"], ["a", "tickfs"], ["afs", "labfs"]]
+            ["lc", "ls", "lw", "ma", "ms"], ["xlim", "ylim"], ["xlim", "xticks"], ["ylim", "yticks"], ["xlim", "xticklabels"],
+            ["ylim", "yticklabels"], ["ylim", "sp"], ["xlog", "ylog"], ["xticks", "yticks"], ["a", "tickfs"], ["afs", "labfs"]]
 
 
 def run_pairs(desc, ctx):
